@@ -99,4 +99,32 @@ def jobs(tier):
   required = "the interval of to - from derived from the variable-level distances, enclosing every consistent valuation";
 '''},
                    bounded='from: <= 2 terms over %d time points, to = 0; |coefficients| < 2^%d, |x| <= 4, finite distances only' % (d['XT_NTP'], W)))
+    # equates(l0, l1): "may be equal" - true exactly when 0 lies in the interval of l0 - l1, and never false when a consistent valuation
+    # makes the two expressions equal
+    HE = 'void xt_harness(void)\n{\n  xt_init_globals();\n' + hq + '\n  struct smt_idl_theory th; struct smt_lin *l0; struct smt_lin *l1;\n  smt_idl_theory_equates__lin__lin(&th, l0, l1);\n}\n'
+    pree = ['__CPROVER_is_fresh(l0, sizeof(*l0)) && __CPROVER_is_fresh(l1, sizeof(*l1))', '__exc == 0 && sp_x_ok()',
+            'lin_shape(*l0) && sp_lin_keys_ok(*l0) && lin_shape(*l1) && sp_lin_keys_ok(*l1) && l1->vars.n <= 1',
+            'in_range_lin(*l0) && lin_nonzero(*l0) && in_range_lin(*l1) && lin_nonzero(*l1)', 'wf_lin(*l0) && wf_lin(*l1)',
+            'sp_D_shape(self->_dists) && sp_D_within(self->_dists, XT_DQ) && sp_x_consistent(self->_dists)', 'sp_lin_rec(100, *l0) && sp_lin_rec(130, *l1) && sp_q_rec(self->_dists)']
+    BE = 'sp_bounds_of_diff(self->_dists, *l0, *l1)'
+    ce = Contract(requires=pree,
+                  ensures=[('only_invalid_argument', '__exc == 0 || __exc == EXC_invalid_argument'),
+                           ('serves_every_integer_difference_form', '!%s.ok || __exc == 0' % BE),
+                           ('agrees_with_the_variable_level_distances', '__exc != 0 || !%s.ok || %s == (%s.lo <= 0 && %s.hi >= 0)' % (BE, R, BE, BE)),
+                           ('never_denies_an_equality_some_consistent_valuation_has', '__exc != 0 || sp_diff_sign(*l0, *l1) != 0 || %s' % R)],
+                  assigns='__exc')
+    out.append(Job('idl.equates', 'smt_idl_theory_equates__lin__lin', tus=TUS, contract=ce, defines=dict(d, XT_DQ=(10 if bits == 8 else 64)), unwind=6, model_unwind=8, spec_headers=SPEC, exceptions=True,
+                   caps={'map': 4, 'vec_vec_I': 4, 'vec_I': 4, 'vec_lit': 2}, abstract_fields=dict(ABS, **{'smt::lit': ['x']}), harness=HE, timeout=3000, mem_gb=24,
+                   force_types=['std::vector<std::vector<long>>'],
+                   replay={'driver': 'dl', 'stanza': '''  const int n = XT_NTP; sat_core sat; idl_theory *th = build_idl_q(sat, n); lin l0 = mk_lin(100), l1 = mk_lin(130);
+  q_bounds want = bounds_of(*th, l0 - l1); rational v = lin_value(l0 - l1, n); std::string why;
+  try {
+    bool r = th->equates(l0, l1);
+    if (want.ok && r != (want.lo <= 0 && want.hi >= 0)) { ok = false; why += " but the distances give l0 - l1 the interval [" + std::to_string(want.lo) + ", " + std::to_string(want.hi) + "];"; }
+    if (v == rational::ZERO && !r) { ok = false; why += " but a consistent valuation makes them equal;"; }
+    observed = "equates(" + show(l0) + ", " + show(l1) + ") = " + std::to_string(r) + why;
+  } catch (const std::invalid_argument &e) { if (want.ok) ok = false; observed = "equates(" + show(l0) + ", " + show(l1) + ") throws invalid_argument"; }
+  required = "true exactly when 0 lies in the interval of l0 - l1 derived from the variable-level distances";
+'''},
+                   bounded='l0 <= 2 terms, l1 <= 1 term over %d time points; |coefficients| < 2^%d, |x| <= 4, finite distances only' % (d['XT_NTP'], W)))
     return out
